@@ -6,8 +6,10 @@ that the conformance harness binds to the code, so there is one source of truth;
 scratch (no fingerprint cache) by the checks that rely on them."""
 from __future__ import annotations
 
+import os
 import re
 import shutil
+import signal
 import subprocess
 import tempfile
 import time
@@ -55,9 +57,21 @@ def prove(ctx: Ctx, module: str, theorems: list[str], timeout: int = 1500) -> di
                     ["--stretch", "30", "--threads", "2"]]
         out, m, p = "", None, None
         for n_try, extra in enumerate(attempts, start=1):
-            p = subprocess.run(["tlapm", *extra, "-I", str(STDLIB), src.name], cwd=work, capture_output=True,
-                               text=True, timeout=timeout)
-            out = p.stdout + p.stderr
+            # tlapm races several back ends per obligation and does not always reap the losers (a solver that was
+            # out-run can keep a core busy for an hour): it gets its own process group, which is killed afterwards
+            proc = subprocess.Popen(["tlapm", *extra, "-I", str(STDLIB), src.name], cwd=work, stdout=subprocess.PIPE,
+                                    stderr=subprocess.STDOUT, text=True, start_new_session=True)
+            try:
+                out, _ = proc.communicate(timeout=timeout)
+            except subprocess.TimeoutExpired:
+                out = ""
+            finally:
+                try:
+                    os.killpg(proc.pid, signal.SIGKILL)
+                except (ProcessLookupError, PermissionError):
+                    pass
+                proc.wait()
+            p = proc
             m = re.search(r"All (\d+) obligations? proved", out)
             if p.returncode == 0 and m:
                 break
